@@ -343,6 +343,9 @@ def check_tbtr(sink, reported, tagger_tags, with_run_ops):
         elif form == "reasonarg":
             if not got or marker + "-why" not in text_of(got):
                 problems.append(("tbtr-details", "callback details %r lack the skip reason of test #%d" % (got, n)))
+        elif form == "none":
+            if got:
+                problems.append(("tbtr-details", "callback for test #%d (reported without details) carries details %r" % (n, sorted(got))))
     return problems
 
 
